@@ -1,0 +1,43 @@
+// Copyright 2025 SCION Association
+//
+// Licensed under the Apache License, Version 2.0 (the "License");
+// you may not use this file except in compliance with the License.
+// You may obtain a copy of the License at
+//
+//   http://www.apache.org/licenses/LICENSE-2.0
+//
+// Unless required by applicable law or agreed to in writing, software
+// distributed under the License is distributed on an "AS IS" BASIS,
+// WITHOUT WARRANTIES OR CONDITIONS OF ANY KIND, either express or implied.
+// See the License for the specific language governing permissions and
+// limitations under the License.
+
+//go:build verif
+
+package grpc
+
+import (
+	"net"
+
+	"google.golang.org/grpc/peer"
+
+	"github.com/scionproto/scion/pkg/addr"
+	"github.com/scionproto/scion/pkg/drkey"
+)
+
+// Accessors for the verification harness (add-only, no behaviour change).
+var (
+	VerifValidateASHostReq   = validateASHostReq
+	VerifValidateHostASReq   = validateHostASReq
+	VerifValidateHostHostReq = validateHostHostReq
+)
+
+// VerifValidateAllowedHost exposes validateAllowedHost.
+func (d *Server) VerifValidateAllowedHost(protoId drkey.Protocol, peerAddr net.Addr) error {
+	return d.validateAllowedHost(protoId, peerAddr)
+}
+
+// VerifValidateClientCertificate exposes validateClientCertificate.
+func (d *Server) VerifValidateClientCertificate(p *peer.Peer) (addr.IA, error) {
+	return d.validateClientCertificate(p)
+}
